@@ -2,7 +2,7 @@
    Model: Model/GF8.v (GF(2^8) mod 0x11D; klauspost/reedsolomon with WithPAR1Matrix: Encode, Reconstruct,
    Verify) and Model/Par1.v (Create, the decoder, Verify, Repair) over Model/FS.v. *)
 From Gopar Require Import Model.Base Model.Matrix Model.RS16 Model.GF8 Model.CRC Model.GoPath Model.FS Model.Par1
-     Proofs.LinAlg Proofs.GoPathFacts Proofs.Par2Facts Proofs.GF8Facts Proofs.Par1Facts.
+     Proofs.LinAlg Proofs.GoPathFacts Proofs.Par2Facts Proofs.GF8Facts Proofs.Par1Facts Proofs.Par1Clean.
 Open Scope N_scope.
 
 (* Reconstruct, for EVERY file count, volume count, content and EVERY subset of surviving data files and
@@ -58,3 +58,24 @@ Example C04_example :
   let D := [[1; 2; 3]; [4; 5; 6]; [7; 8; 9]] in
   par1_reconstruct 3 2 (erase [false; true; false; true; true] (D ++ par1_encode 3 2 D)) = Ok (D ++ par1_encode 3 2 D).
 Proof. vm_compute. reflexivity. Qed.
+
+(* END TO END over the I/O layer, for EVERY archive state (Proofs/Par1Clean.v).
+   COMPLETE: if every saved file is present with both recorded hashes, Verify counts no unusable file *)
+Theorem C04_intact_means_clean : forall md5 ix fs s st1,
+  p1_load md5 ix (io_init fs []) = (Ok s, st1) ->
+  (forall e, In e (s_saved s) -> exists data, fs_lookup fs (join2 (dir ix) (e_name e)) = Some data /\
+       md5 data = e_hash e /\ Par1.hash16k md5 data = e_h16 e) ->
+  fc_unusable (file_counts s) = 0%nat.
+Proof. exact par1_intact_clean. Qed.
+Print Assumptions C04_intact_means_clean.
+
+(* NEVER SUCCESS WITH A WRONG FILE: if Repair returns success then afterwards every saved file is present
+   with both recorded hashes; files that were accepted are unchanged, files Repair wrote have the recorded
+   length (recorded_after, in Proofs/Par1Clean.v) *)
+Theorem C04_success_means_restored : forall md5 ix dbl fs rp st' s st1,
+  par1_repair md5 ix dbl (io_init fs []) = ((Ok tt, rp), st') ->
+  p1_load md5 ix (io_init fs []) = (Ok s, st1) ->
+  NoDup (map (fun e => join2 (dir ix) (e_name e)) (s_saved s)) ->
+  Forall2 (recorded_after md5 (io_fs st') ix (s_size s)) (s_saved s) (s_data s).
+Proof. exact par1_repair_ok_all_recorded_strong. Qed.
+Print Assumptions C04_success_means_restored.
